@@ -310,9 +310,9 @@ Definition df_sparse (rt : rtable) : list (list (option Z)) :=
                               | CSC => find_idx i (nth j (r_segs rt) [])
                               end) (seq 0 (r_nsamp rt))) (seq 0 (r_nobs rt)).
 
-(* ================================================================== metadata_to_dataframe, table.py:4451-4523
-   value trees are the harness's tagged values: L [I tag; payload], tag 5 = list / tuple,
-   tag 4 = text (payload: its bytes), 0 = None *)
+(* ================================================================== metadata_to_dataframe, table.py:4451-4534
+   a metadata entry is  L [L [key; value]; ...]  in dict order; value trees are the harness's tagged
+   values  L [I tag; payload]:  tag 5 = list / tuple (payload: the items), 0 = None *)
 Definition kv_key (kv : Tree) : Tree := tnth kv 0.
 Definition kv_val (kv : Tree) : Tree := tnth kv 1.
 Definition is_seq (v : Tree) : bool := Z.eqb (tZ (tnth v 0)) 5.
@@ -324,40 +324,24 @@ Definition entry_columns (e : Tree) : list Tree :=
   flat_map (fun kv => if is_seq (kv_val kv)
                       then map (fun i => L [kv_key kv; I (Z.of_nat i)]) (seq 0 (length (seq_items (kv_val kv))))
                       else [L [kv_key kv]]) (tL e).
-(* the labels of the first entry that has more columns than every entry before it *)
-Definition pick_columns (md : list Tree) : list Tree :=
-  fold_left (fun mcols e => let c := entry_columns e in
-                            if Nat.ltb (length mcols) (length c) then c else mcols) md [].
-(* `expand` is what the first loop leaves behind: the flags of the LAST entry *)
-Definition expand_of (e : Tree) : list (Tree * bool) :=
-  map (fun kv => (kv_key kv, is_seq (kv_val kv))) (tL e).
-Fixpoint assoc_tree (k : Tree) (l : list (Tree * bool)) : option bool :=
-  match l with
-  | [] => None
-  | (k', b) :: t => if tree_eqb k k' then Some b else assoc_tree k t
-  end.
-(* for v in value: a list gives its items, a text its characters (ASCII only here), other scalars TypeError *)
-Definition iter_value (v : Tree) : result (list Tree) :=
-  match tZ (tnth v 0) with
-  | 5%Z => ROk (seq_items v)
-  | 4%Z => ROk (map (fun b => L [I 4%Z; L [b]]) (tL (tnth v 1)))
-  | 6%Z => RErr E_OTHER
-  | _ => RErr E_TYPE
-  end.
-(* each row is filled in the row's OWN key order *)
-Fixpoint row_cells (expand : list (Tree * bool)) (kvs : list Tree) : result (list Tree) :=
+(* the first entry that has more columns than every entry before it: its labels, keys and list flags
+   decide the layout (mcols, mkeys, mexpand) *)
+Definition widest (md : list Tree) : Tree :=
+  fold_left (fun best e => if Nat.ltb (length (entry_columns best)) (length (entry_columns e)) then e else best)
+            md (L []).
+Fixpoint lookup_kv (k : Tree) (kvs : list Tree) : option Tree :=
   match kvs with
-  | [] => ROk []
-  | kv :: t =>
-      match assoc_tree (kv_key kv) expand with
-      | None => RErr E_KEY
-      | Some b =>
-          match (if b then iter_value (kv_val kv) else ROk [kv_val kv]) with
-          | RErr c => RErr c
-          | ROk cells => match row_cells expand t with RErr c => RErr c | ROk r => ROk (cells ++ r) end
-          end
-      end
+  | [] => None
+  | kv :: t => if tree_eqb k (kv_key kv) then Some (kv_val kv) else lookup_kv k t
   end.
+(* m[key] on the defaultdict: None for a missing key *)
+Definition md_get (k : Tree) (e : Tree) : Tree :=
+  match lookup_kv k (tL e) with Some v => v | None => md_nan end.
+(* one row: the keys of the widest entry in its order; a value is spread over several cells when the
+   widest entry holds a list under that key and this value is a list too (as many cells as THIS list has) *)
+Definition row_cells (wide e : Tree) : list Tree :=
+  flat_map (fun kv => let v := md_get (kv_key kv) e in
+                      if is_seq (kv_val kv) && is_seq v then seq_items v else [v]) (tL wide).
 Definition pad_row (n : nat) (r : list Tree) : list Tree := r ++ repeat md_nan (n - length r).
 (* pandas.DataFrame(rows, index=ids, columns=mcols): shorter rows are padded with missing values,
    a longest row that is not as long as the label list is refused (ValueError) *)
@@ -365,24 +349,16 @@ Definition md_df (ids : list Z) (md : option (list Tree)) : result (list Tree * 
   match md with
   | None => RErr E_KEY
   | Some l =>
-      let mcols := pick_columns l in
-      match rmap (fun e => row_cells (expand_of (last l (L []))) (tL e)) l with
-      | RErr c => RErr c
-      | ROk rows =>
-          if Nat.eqb (fold_right Nat.max 0 (map (@length Tree) rows)) (length mcols)
-          then ROk (mcols, combine ids (map (pad_row (length mcols)) rows))
-          else RErr E_VALUE
-      end
+      let w := widest l in
+      let mcols := entry_columns w in
+      let rows := map (row_cells w) l in
+      if Nat.eqb (fold_right Nat.max 0 (map (@length Tree) rows)) (length mcols)
+      then ROk (mcols, combine ids (map (pad_row (length mcols)) rows))
+      else RErr E_VALUE
   end.
 Definition r_md_df (a : axis) (rt : rtable) : result (list Tree * list (Z * list Tree)) :=
   match a with Obs => md_df (r_oids rt) (r_omd rt) | Samp => md_df (r_sids rt) (r_smd rt) end.
 
-(* the export read directly off the metadata: one column per key (of the first entry), every row
-   looked up BY KEY *)
-Fixpoint lookup_kv (k : Tree) (kvs : list Tree) : option Tree :=
-  match kvs with
-  | [] => None
-  | kv :: t => if tree_eqb k (kv_key kv) then Some (kv_val kv) else lookup_kv k t
-  end.
+(* the export read directly off the metadata: one column per key, every row looked up BY KEY *)
 Definition d_md_rows (keys : list Tree) (md : list Tree) : list (list Tree) :=
-  map (fun e => map (fun k => match lookup_kv k (tL e) with Some v => v | None => md_nan end) keys) md.
+  map (fun e => map (fun k => md_get k e) keys) md.
